@@ -26,7 +26,8 @@ Trace == ndJsonDeserialize(IOEnv.TRACE)
 \* first pass adopted then shows in what the calls that follow return, if it has any consequence at all.
 NoResync == "NORESYNC" \in DOMAIN IOEnv /\ IOEnv.NORESYNC = "1"
 
-Parties == {"A", "B"}
+\* "C": a second client of B's account (runs of OTRMulti.tla); absent from all other runs
+Parties == {"A", "B", "C"}
 
 TupSet(sq) == {<<sq[i][1], sq[i][2]>> : i \in DOMAIN sq}
 Tup4Set(sq) == {<<sq[i][1], sq[i][2], sq[i][3], sq[i][4]>> : i \in DOMAIN sq}
@@ -161,7 +162,8 @@ NextObs(e) ==
 
 OwnerOfId(id) == IF (id > 100 /\ id < 200) \/ (id >= 100000 /\ id < 200000) THEN "A"
                  ELSE IF (id > 200 /\ id < 300) \/ (id >= 200000 /\ id < 300000) THEN "B"
-                 ELSE IF (id > 300 /\ id < 400) \/ (id >= 300000 /\ id < 400000) THEN "E" ELSE "?"
+                 ELSE IF (id > 300 /\ id < 400) \/ (id >= 300000 /\ id < 400000) THEN "E"
+                 ELSE IF (id > 400 /\ id < 500) \/ (id >= 400000 /\ id < 500000) THEN "C" ELSE "?"
 
 \* set of <<property, reason>> violated by event e (pre-state st, post observation o)
 PropViolations(e, o) ==
@@ -217,11 +219,11 @@ PropViolations(e, o) ==
   \cup (IF e.ev # "Done" /\ o.fam # "relay" /\ e.st.ms = "enc" /\ HasEv(e, "sec:GoneSecure") /\
              ~(/\ e.st.peer \in {"A", "B", "E"}
                /\ e.st.sess[1] > 0 /\ e.st.sess[2] > 0
-               /\ {OwnerOfId(e.st.sess[1]), OwnerOfId(e.st.sess[2])} = {p, e.st.peer}
-               /\ e.st.tcur > 0 /\ OwnerOfId(e.st.tcur) = e.st.peer
+               /\ {KeyOf(OwnerOfId(e.st.sess[1])), KeyOf(OwnerOfId(e.st.sess[2]))} = {KeyOf(p), e.st.peer}
+               /\ e.st.tcur > 0 /\ KeyOf(OwnerOfId(e.st.tcur)) = e.st.peer
                /\ {e.st.prev, e.st.tcur} = {e.st.sess[1], e.st.sess[2]})
         THEN {<<"C01", "encrypted with a peer key, DH value or session id that does not belong to the party that signed the exchange">>} ELSE {})
-  \cup (IF e.ev # "Done" /\ e.st.ms = "enc" /\ (HasEv(e, "sec:GoneSecure") \/ HasEv(e, "sec:StillSecure")) /\ e.st.peer = p
+  \cup (IF e.ev # "Done" /\ e.st.ms = "enc" /\ (HasEv(e, "sec:GoneSecure") \/ HasEv(e, "sec:StillSecure")) /\ e.st.peer = KeyOf(p)
            /\ o.fam # "reflect"
         THEN {<<"C01", "encrypted with itself">>} ELSE {})
   \cup (IF e.ev = "Recv" /\ st[p].ver = 0 /\ e.st.ver # 0 /\ e.m.t \in {"Q", "P", "DHC", "DHK", "RS", "SIG", "D"} /\
@@ -270,6 +272,8 @@ PropViolations(e, o) ==
   \cup (IF e.ev = "End" /\ ~e.err /\ (e.st.auth \notin {"nil", "none"} \/ e.st.ax # 0)
         THEN {<<"C08", "End() left the ephemeral secrets of an unfinished key exchange reachable">>,
               <<"C18", "End() did not abandon the key exchange in progress: a late message can make the ended conversation encrypted again">>} ELSE {})
+  \cup (IF e.ev # "Done" /\ e.st.ms # "enc" /\ e.st.smpheld > 0
+        THEN {<<"C08", "secret exponents of an SMP run are retained although the session has ended">>} ELSE {})
   \cup (IF e.ev # "Done" /\ e.st.ms = "fin" /\ e.st.rsq # <<>>
         THEN {<<"C08", "text retained after the peer ended the session">>} ELSE {})
   \cup (IF e.ev # "Done" /\ \E i \in DataOuts(e) : e.out[i].pad # "ok"
@@ -292,6 +296,15 @@ PropViolations(e, o) ==
                /\ st["A"].peer = "B" /\ st["B"].peer = "A" /\ st["A"].rev # st["B"].rev)
         THEN {<<"C07", "key exchange did not complete">>} ELSE {})
 
+MultiPaired(q) == /\ st["A"].ms = "enc" /\ st[q].ms = "enc" /\ st["A"].sess = st[q].sess /\ st["A"].sess # <<0, 0>>
+                  /\ st["A"].ttag = TagOf(q) /\ st[q].ttag = 1 /\ st["A"].rev # st[q].rev /\ st["A"].peer = "B" /\ st[q].peer = "A"
+MultiViolations(e, o) ==
+  (IF e.ev = "Done" /\ o.fam = "multi" /\ e.qa = 0 /\ e.qb = 0 /\ o.started /\ ~(MultiPaired("B") \/ MultiPaired("C"))
+   THEN {<<"C15", "with the peer's account logged in twice the key exchange did not complete with either client">>} ELSE {})
+  \cup (IF e.ev # "Done" /\ o.fam \in {"multi", "multi-life"} /\ \E q \in {"B", "C"} :
+            st["A"].ver = 3 /\ st["A"].ttag # 0 /\ st["A"].ttag # TagOf(q) /\ (IF e.p = q THEN e.st.ms ELSE st[q].ms) = "enc"
+        THEN {<<"C15", "a client instance the peer is not bound to has an encrypted session">>} ELSE {})
+
 ChangedFields(e) == IF e.ev = "Recv" THEN {f \in (StateFields \ {"frag"}) : SpecField(st[e.p], f) # Logged(e.st, f)} ELSE {}
 ReportProp(e, v) ==
   PrintT(<<"PROP", ToJson([line |-> l, i |-> e.i, ev |-> e.ev, p |-> e.p, prop |-> v[1], reason |-> v[2],
@@ -305,7 +318,7 @@ TraceInit ==
   /\ obs = InitObs
 
 DoInit(e) ==
-  /\ st' = [p \in Parties |-> InitParty(p, PolOf(e.pol[p]), e.ver[p])]
+  /\ st' = [p \in Parties |-> IF p \in DOMAIN e.pol THEN InitParty(p, PolOf(e.pol[p]), e.ver[p]) ELSE InitParty(p, NoPol, 0)]
   /\ obs' = InitObsFam(e.fam)
   /\ mism' = mism
 
@@ -315,7 +328,7 @@ DoStep(e) ==
       \* returns; the state it leaves behind is adopted and everything that follows is validated
       d == IF e.rf THEN (IF e.panic THEN {"panic"} ELSE {}) ELSE ResultDiffs(e, r) \cup StateDiffs(e, r)
       o == NextObs(e)
-      pv == {v \in PropViolations(e, o) : v \notin obs.flagged}
+      pv == {v \in PropViolations(e, o) \cup MultiViolations(e, o) : v \notin obs.flagged}
   IN /\ st' = [st EXCEPT ![e.p] = IF NoResync /\ ~e.rf THEN r.s ELSE Resync(r.s, e.st)]
      /\ IF d = {} THEN mism' = mism ELSE /\ Report(e, r, d)
                                          /\ mism' = mism + 1
@@ -323,7 +336,7 @@ DoStep(e) ==
      /\ obs' = [o EXCEPT !.flagged = @ \cup pv]
 
 DoDone(e) ==
-  LET pv == {v \in PropViolations(e, obs) : v \notin obs.flagged}
+  LET pv == {v \in PropViolations(e, obs) \cup MultiViolations(e, obs) : v \notin obs.flagged}
   IN /\ \A v \in pv : ReportProp(e, v)
      /\ obs' = [obs EXCEPT !.flagged = @ \cup pv]
      /\ UNCHANGED <<st, mism>>
